@@ -207,6 +207,16 @@ func (p *parser) recordMetadata(comment string) {
 	}
 }
 
+// recordLabelComment handles a comment that stands between labels and their
+// instruction: metadata is kept, and an assertion is kept as a comment line
+// of its own so that it is evaluated like any other
+func (p *parser) recordLabelComment(comment string) {
+	p.recordMetadata(comment)
+	if strings.HasPrefix(comment, ";assert") {
+		p.lines = append(p.lines, sourceLine{line: p.line, typ: lineComment, comment: comment})
+	}
+}
+
 // parseNewlines consumes newlines and then returns:
 // eof: nil
 // anything else: parseLine
@@ -237,7 +247,7 @@ func parseLabels(p *parser) parseStateFn {
 	// instruction; a metadata comment there still counts
 	if p.nextToken.typ == tokNewline || p.nextToken.typ == tokComment {
 		if p.nextToken.typ == tokComment {
-			p.recordMetadata(p.nextToken.val)
+			p.recordLabelComment(p.nextToken.val)
 		}
 		p.next()
 		return parseLabels
@@ -284,7 +294,7 @@ func parseColon(p *parser) parseStateFn {
 	// consume newlines and comments; a metadata comment still counts
 	if p.nextToken.typ == tokNewline || p.nextToken.typ == tokComment {
 		if p.nextToken.typ == tokComment {
-			p.recordMetadata(p.nextToken.val)
+			p.recordLabelComment(p.nextToken.val)
 		}
 		p.next()
 		return parseColon
